@@ -72,44 +72,48 @@ def run_verus(path, extra=(), timeout=600):
     return cmd, out, err, rc, time.time() - t0
 
 
-def build_and_verify(repo, workdir, name, mode, roots, canaries=True, jobs=8):
+def _verify_one(repo, workdir, name, mode, roots, tag):
+    """one micro-unit: closure of `roots`, one verus run"""
     r = UnitResult()
     r.name, r.mode = name, mode
-    os.makedirs(workdir, exist_ok=True)
     ex = Extractor(repo, os.path.join(ROOT, 'contracts'), mode)
     try:
         text, meta, linemap, names = ex.build_unit(roots)
     except (LostAnchor, Unsupported) as e:
-        r.status, r.reason = 'undecided', 'extraction: %s' % e
-        return r
-    path = os.path.join(workdir, 'unit_%s_%s.rs' % (name, mode))
+        r.status, r.reason = 'undecided', 'extraction (%s): %s' % (tag, e)
+        return r, None, None, None
+    path = os.path.join(workdir, 'unit_%s_%s_%s.rs' % (name, mode, tag))
     open(path, 'w').write(text)
     r.path, r.functions = path, meta
-    # mechanical scan for assume/admit in the generated unit
     r.assume_scan = len(re.findall(r'\b(assume|admit)\s*\(', text))
     cmd, out, err, rc, wall = run_verus(path)
     r.cmd, r.stderr, r.wall_s = ' '.join(cmd), err, wall
     try:
         j = json.loads(out)
     except Exception:
-        r.status, r.reason = 'undecided', 'verus produced no JSON (rc=%d): %s' % (rc, err[-400:])
-        return r
+        r.status, r.reason = 'undecided', 'verus produced no JSON for %s (rc=%d): %s' % (tag, rc, err[-400:])
+        return r, text, meta, linemap
     vr = j.get('verification-results', {})
     r.verified, r.errors = vr.get('verified', 0), vr.get('errors', 0)
     tm = j.get('times-ms', {})
     r.total_ms = tm.get('total', 0)
     smt = tm.get('smt', {})
     r.smt_ms = smt.get('total', 0)
+    crate = os.path.basename(path)[:-3]
     for mod in smt.get('smt-run-module-times', []):
         for fb in mod.get('function-breakdown', []):
-            r.breakdown.append(dict(function=fb['function'], ms=fb['time'], rlimit=fb.get('rlimit'), ok=fb['success']))
+            fn = fb['function']
+            if fn.startswith(crate + '::'):
+                fn = fn[len(crate) + 2:]
+            r.breakdown.append(dict(function=fn, ms=fb['time'], rlimit=fb.get('rlimit'), ok=fb['success']))
     diags = parse_diags(err)
     errs = [d for d in diags if d['sev'] == 'error' and not d['msg'].startswith('aborting due to')]
     if vr.get('encountered-vir-error') or (errs and r.verified + r.errors == 0) or (rc != 0 and not errs):
         r.status = 'undecided'
-        r.reason = 'verus front-end: ' + '; '.join(d['msg'] for d in errs[:3]) if errs else 'verus rc=%d' % rc
-        return r
+        r.reason = ('verus front-end (%s): ' % tag) + ('; '.join(d['msg'] for d in errs[:3]) if errs else 'rc=%d' % rc)
+        return r, text, meta, linemap
     base = os.path.basename(path)
+    lines = text.split('\n')
     for d in errs:
         low = d['msg'].lower()
         if any(u in low for u in UNDECIDED_MARKS):
@@ -117,98 +121,142 @@ def build_and_verify(repo, workdir, name, mode, roots, canaries=True, jobs=8):
             r.reason = d['msg']
             continue
         if d['code'] is not None or not any(k in low for k in DEFINITE):
-            # compile error or unknown diagnostic: front-end failure
             r.status = 'undecided'
-            r.reason = 'verus front-end: ' + d['msg']
+            r.reason = 'verus front-end (%s): %s' % (tag, d['msg'])
             continue
         fnid = item = None
         if d['line'] and d['file'] and os.path.basename(d['file']) == base and d['line'] - 1 < len(linemap):
             item, fnid = linemap[d['line'] - 1]
-        # the failing clause text
-        clause = ''
-        lines = text.split('\n')
-        if d['line'] and d['line'] - 1 < len(lines):
-            clause = lines[d['line'] - 1].strip()
+        clause = lines[d['line'] - 1].strip() if d['line'] and d['line'] - 1 < len(lines) else ''
         kind = ('overflow' if 'overflow' in low else 'post' if 'postcondition' in low else 'pre' if 'precondition' in low
                 else 'assert' if 'assert' in low else 'invariant' if 'invariant' in low else 'other')
-        r.failed.append(dict(obligation='%s#%s[%s]' % (fnid or item or '?', kind, clause[:100]), kind=kind, function=fnid,
-                             item=item, line=d['line'], message=d['msg'], mode=mode, text='\n'.join(d['text'][:14])))
+        rec = dict(obligation='%s#%s[%s]' % (fnid or item or '?', kind, clause[:100]), kind=kind, function=fnid,
+                   item=item, line=d['line'], message=d['msg'], mode=mode, text='\n'.join(d['text'][:14]))
+        if fnid is None:
+            # a failing lemma / shim item is pure specification text of /verif, not repository code:
+            # a proof-engineering failure, never a property violation
+            r.status = 'undecided'
+            r.reason = 'proof obligation outside repository text failed (%s): %s' % (item, clause[:80])
+        else:
+            r.failed.append(rec)
     if r.status != 'undecided' and (r.failed or r.errors):
         r.status = 'failed'
-    if r.status == 'ok' and canaries:
-        run_canaries(r, text, meta, linemap, workdir, jobs)
-    return r
+    return r, text, meta, linemap
 
 
-def run_canaries(r, text, meta, linemap, workdir, jobs):
-    """For every extracted function with a contract: a twin unit in which exactly that function
-    additionally `ensures false`; verus is run on that function only and MUST fail.
-    A twin that verifies means contradictory requires/axioms (vacuity)."""
-    lines = text.split('\n')
-    fnids = []
-    for f in meta:
-        if f['contract_clauses'] > 0 and f['id'] not in fnids:
-            fnids.append(f['id'])
-    # global canary: a proof fn with ensures false after everything
+def build_and_verify(repo, workdir, name, mode, roots, canaries=True, jobs=14):
+    """Every root item becomes its own micro-unit (its dependency closure in one file): Verus' per-file
+    cost grows super-linearly with file size, and micro-units run in parallel.  Results are merged."""
+    os.makedirs(workdir, exist_ok=True)
+    agg = UnitResult()
+    agg.name, agg.mode = name, mode
+    t0 = time.time()
+    parts = {}
+    with ThreadPoolExecutor(max_workers=jobs) as tp:
+        futs = {root: tp.submit(_verify_one, repo, workdir, name, mode, [root], root.replace('.', '_')) for root in roots}
+        for root, fu in futs.items():
+            parts[root] = fu.result()
+    seen_fn = {}
+    bd = {}
+    cmds = []
+    for root in roots:
+        r, text, meta, linemap = parts[root]
+        cmds.append(r.cmd)
+        agg.smt_ms += r.smt_ms
+        agg.total_ms = max(agg.total_ms, r.total_ms)
+        agg.assume_scan += r.assume_scan
+        for f in r.functions:
+            if f['id'] not in seen_fn:
+                seen_fn[f['id']] = f
+        for b in r.breakdown:
+            cur = bd.get(b['function'])
+            if cur is None or (cur['ok'] and not b['ok']):
+                bd[b['function']] = b
+        if r.status == 'undecided':
+            agg.status = 'undecided'
+            agg.reason = (agg.reason + ' | ' if agg.reason else '') + r.reason
+        for fl in r.failed:
+            if fl['obligation'] not in [x['obligation'] for x in agg.failed]:
+                agg.failed.append(fl)
+    agg.functions = list(seen_fn.values())
+    agg.breakdown = list(bd.values())
+    agg.verified = sum(1 for b in agg.breakdown if b['ok'])
+    agg.errors = sum(1 for b in agg.breakdown if not b['ok'])
+    agg.cmd = 'verus work/<id>/unit_%s_%s_<root>.rs --output-json --time --multiple-errors 30   (one micro-unit per root: %s)' % (name, mode, ', '.join(roots))
+    if agg.status != 'undecided' and agg.failed:
+        agg.status = 'failed'
+    if agg.status == 'ok' and canaries:
+        run_canaries(agg, repo, workdir, parts, jobs)
+    agg.wall_s = time.time() - t0
+    return agg
+
+
+def run_canaries(agg, repo, workdir, parts, jobs):
+    """For every extracted function with a contract in a root item: a twin micro-unit in which exactly
+    that function additionally `ensures false`; it MUST fail.  A twin that verifies means contradictory
+    requires/axioms (vacuity).  Plus one global canary (`proof fn ... ensures false {}`) per root."""
     jobs_list = []
-    for k, fid in enumerate(fnids + ['<global>']):
-        if fid == '<global>':
-            idx = max(i for i, l in enumerate(lines) if l.startswith('} // verus!'))
-            twin = lines[:idx] + ['pub proof fn __canary_global() ensures false {}'] + lines[idx:]
-            fname = '__canary_global'
-        else:
-            span = [i for i, (it, fn) in enumerate(linemap) if fn == fid]
-            # find the line with the opening brace of the body: first line == '{' or starting with '{' after signature
-            body_line = None
-            for i in span:
-                if lines[i].startswith('{') or re.match(r'^\s*\{\s*$', lines[i]):
-                    body_line = i
-                    break
-            if body_line is None:
-                # one-line signature+body: put ensures before first '{' occurrence at end of sig line
-                r.canaries[fid] = 'error: no body line'
-                continue
-            has_ens = any(re.match(r'^\s*ensures\b', lines[i]) for i in span[:span.index(body_line)])
-            ins = '    false,' if has_ens else '    ensures false,'
-            # an `ensures` list may be followed by a decreases clause; insert right after the last ensures clause:
-            # simplest: append a new ensures only if none, else add clause right after the `ensures` keyword line
-            twin = list(lines)
-            if has_ens:
+    k = 0
+    for root, (r, text, meta, linemap) in parts.items():
+        if text is None:
+            continue
+        lines = text.split('\n')
+        root_fns = []
+        for i, (it, fn) in enumerate(linemap):
+            if it == root and fn and fn not in root_fns:
+                root_fns.append(fn)
+        metas = {f['id']: f for f in meta}
+        targets = [f for f in root_fns if metas.get(f, {}).get('contract_clauses', 0) > 0]
+        for fid in targets + ['<global:%s>' % root]:
+            k += 1
+            if fid.startswith('<global'):
+                idx = max(i for i, l in enumerate(lines) if l.startswith('} // verus!'))
+                twin = lines[:idx] + ['pub proof fn __canary_global() ensures false {}'] + lines[idx:]
+            else:
+                span = [i for i, (it, fn) in enumerate(linemap) if fn == fid]
+                body_line = None
                 for i in span:
+                    if lines[i].startswith('{') or re.match(r'^\s*\{\s*$', lines[i]):
+                        body_line = i
+                        break
+                if body_line is None:
+                    agg.canaries[fid] = 'error: no body line'
+                    continue
+                twin = list(lines)
+                done = False
+                for i in span[:span.index(body_line)]:
                     if re.match(r'^\s*ensures\b', twin[i]):
                         twin[i] = re.sub(r'^(\s*)ensures\b', r'\1ensures false,', twin[i], count=1)
+                        done = True
                         break
-            else:
-                twin.insert(body_line, ins)
-            fname = None
-        p = os.path.join(workdir, 'canary_%s_%s_%d.rs' % (r.name, r.mode, k))
-        open(p, 'w').write('\n'.join(twin) + '\n')
-        jobs_list.append((fid, p))
+                if not done:
+                    twin.insert(body_line, '    ensures false,')
+            p = os.path.join(workdir, 'canary_%s_%s_%d.rs' % (agg.name, agg.mode, k))
+            open(p, 'w').write('\n'.join(twin) + '\n')
+            jobs_list.append((fid, p))
 
     def one(job):
         fid, p = job
         cmd, out, err, rc, wall = run_verus(p)
         try:
-            j = json.loads(out)
-            vr = j['verification-results']
+            vr = json.loads(out)['verification-results']
         except Exception:
             return fid, 'error: no json'
         if vr.get('encountered-vir-error'):
             return fid, 'error: vir'
-        # must have at least one error and that error must be located in the twin function
         if vr.get('errors', 0) >= 1:
             return fid, 'failed-as-expected'
         return fid, 'PASSED'
 
     with ThreadPoolExecutor(max_workers=jobs) as tp:
         for fid, res in tp.map(one, jobs_list):
-            r.canaries[fid] = res
+            agg.canaries[fid] = res
     for fid, p in jobs_list:
         try:
             os.remove(p)
         except OSError:
             pass
-    bad = {k: v for k, v in r.canaries.items() if v != 'failed-as-expected'}
+    bad = {k: v for k, v in agg.canaries.items() if v != 'failed-as-expected'}
     if bad:
-        r.status = 'undecided'
-        r.reason = 'vacuity canary did not fail: %s' % bad
+        agg.status = 'undecided'
+        agg.reason = 'vacuity canary did not fail: %s' % bad
